@@ -139,6 +139,22 @@ CLAIMED = {
             "documented gray scale (ramp + cube black/white); '#rrggbb' at 88/256 colours and the two readings of 'smallest depth' are reported "
             "as DIVERGENCE, not judged. Four defects found and repaired (findings/C18.json).",
             "DESIGN.md §4 C18"),
+    "C15": ("TLA+ reference terminal (Terminal.tla) extended by VTermOps.tla (listed command set, tolerated console dialect, cell/colour comparison by "
+            "meaning, shape and reply predicates, as-coded transcriptions of defects found); model VTerm.tla (reference terminal under every bounded "
+            "command sequence on 3x3 / 4x3 grids with scrolling regions, also the generator of command sequences via tlc -simulate) model-checked by TLC; "
+            "TLC trace validation (VTermTrace.tla) of a real urwid.vterm.TermCanvas: (a) one event per command fed as chunked bytes, (b) one event per "
+            "feed of arbitrary bytes under a CPU-time watchdog",
+            "TLC explores all bounded command sequences of the reference (grid always HxW, cursor and region inside, scrollback only grows in order, "
+            "dialect results well formed, the comparator accepts the reference and refutes an erase that leaves the cursor cell) and judges every "
+            "recorded step of the real emulator: after each command of TLC-simulated, random and directed sequences (with resizes and scrolled-back views) "
+            "grid text and colours, cursor, scrollback, pen and region against the reference stepped by the same command; after each feed of malformed "
+            "CSI/OSC/charset/UTF-8/C0/C1 streams (any chunking, resizes down to 1x1, four encodings, with and without focus) exception, watchdog, row "
+            "lengths, both cursors, region and the DSR/CPR/DA replies.",
+            "Trusted: TLC, Terminal.tla semantics (DESIGN.md App. E) plus the console dialect of VTermOps.tla, the stub widget / command encoder / cell "
+            "projection (AttrSpec accessors) / ITIMER_VIRTUAL watchdog in vf/props/c15.py. Width-1 glyphs, autowrap on, insert and origin mode off in (a); "
+            "resize semantics adopted from the emulator (shape judged only); SGR flags, xterm-vs-console differences, wide glyphs in one cell are "
+            "DIVERGENCE. 13 defects found and repaired, one known finding (truecolour / palette SGR mix) in findings/C15.json.",
+            "DESIGN.md §4 C15"),
 }
 
 NOT_APPLICABLE = {}
